@@ -301,3 +301,25 @@ func zzH_C06_control() {
 		verifReach("control-tunnel")
 	}
 }
+
+
+// "arbitrary other output before it in the same read": a long prefix that itself contains the words of a finished
+// transfer (the tail of the previous transfer, `ls` showing "Saved Games", a job table with "Stopped") in front of a
+// fresh trigger — the trigger still starts its transfer, in client and in relay mode
+func zzH_C06_afterOutput() {
+	words := []string{"#CFG:", "Saved", "Cancelled", "Stopped", "Interrupted"}
+	var prefix []byte
+	fill := verifNondetRange(0, 1) * verifBound("FILL") // the words right at the start of the read, or beyond the look-ahead distance
+	for i := 0; i < fill; i++ {
+		prefix = append(prefix, 'x')
+	}
+	prefix = append(prefix, words[verifNondetRange(0, 4)]...)
+	prefix = append(prefix, ' ')
+	prefix = append(prefix, zzPrefix6(verifBound("PREFIX"))...)
+	t := zzMakeTrigger(prefix, verifNondetBool())
+	relay := verifNondetBool()
+	det := newTrzszDetector(relay, false)
+	_, trig := det.detectTrzsz(t.buf, false)
+	zzCheckTrigger(trig, t)
+	verifReach("after-output")
+}
